@@ -57,7 +57,7 @@ theorem decFrames_le (b : Int) (hb : 0 ≤ b) : ∀ st : List K, DispOk b st →
       | decDisp => simp only [DispOk] at h; simp only [decFrames]; omega
       | none => exact decFrames_le b hb r h
       | postDone => exact decFrames_le b hb r h
-      | timerDone _ _ => exact decFrames_le b hb r h
+      | timerDone _ _ _ => exact decFrames_le b hb r h
     | _ => exact decFrames_le b hb r h
 
 @[simp] theorem closeObj_disp (w : World) (o : Obj) : (closeObj w o).dispatched = w.dispatched := by
@@ -115,7 +115,7 @@ theorem applyAfter_disp (b : Int) (w : World) (op : Nat) (a : After) (rest : Lis
     · simp only [applyAfter, decFrames] at hd ⊢; omega
     · simp only [applyAfter, DispOk] at hok ⊢; exact hok.2
   | postDone => exact ⟨hb, by simpa [applyAfter, decFrames] using hd, by simpa [applyAfter, DispOk] using hok⟩
-  | timerDone k rep =>
+  | timerDone k rep cb =>
     simp only [applyAfter]
     have base : DispInv b { w with stack := rest } := ⟨hb, by simpa [decFrames] using hd, by simpa [DispOk] using hok⟩
     cases hg : getObj { w with stack := rest } k with
